@@ -260,7 +260,7 @@ def check_map_bins(dim: int, n1: int, n2: int, v0: int, v1: int, v2: int, v3: in
     pre: 1 <= dim <= 2
     pre: 1 <= n1 <= 3 and 1 <= n2 <= 2
     pre: 0 <= v0 <= 1 and 0 <= v1 <= 1 and 0 <= v2 <= 1 and 0 <= v3 <= 1
-    pre: h.in_shard(dim + 2 * (n1 - 1))
+    pre: h.in_shard(dim - 1 + 2 * (n1 - 1) + 6 * (1 if stateful else 0) + 12 * (1 if keep_ctx else 0))
     post: _
     """
     dim = h.concrete(dim, 1, 2)
@@ -316,7 +316,7 @@ CONDITIONS = [
          smoke=["check_split_2d(0, 1, 2, 2, 2, 1, -1, 1, 0, 0)", "check_split_2d(0, 1, 2, 2, 2, 1, 0, 0, 0, 0)"]),
     dict(fn="check_iterate_bins", shards=(2, 2), budget=(60, 300),
          smoke=["check_iterate_bins(1, 2, 1, 1, True)", "check_iterate_bins(2, 2, 2, 2, False)"]),
-    dict(fn="check_map_bins", shards=(6, 6), budget=(60, 600),
+    dict(fn="check_map_bins", shards=(24, 24), budget=(130, 600),
          smoke=["check_map_bins(1, 3, 1, 1, 0, 1, 0, False, True, False)", "check_map_bins(2, 2, 2, 1, 0, 1, 1, True, False, False)",
                 "check_map_bins(1, 3, 1, 1, 0, 1, 0, False, False, True)"]),
 ]
